@@ -234,6 +234,10 @@ def build_function(mspec: Dict[str, Any]) -> Any:
         # an async method behind an ordinary (non-async) decorator: calling it returns a coroutine, but it is not a coroutine function
         body = (f"async def _inner_{py}({src}):\n    return await _RT.acall({key!r}, {bound}, {ctx_expr})\n\n\n"
                 f"def {py}(*args, **kwargs):\n    return _inner_{py}(*args, **kwargs)\n\n\n{py}.__wrapped__ = _inner_{py}\n")
+    elif mspec['flavour'] == 'wfunc':
+        # a plain function behind an ordinary functools.wraps decorator: its signature is the inner function's (via __wrapped__)
+        body = (f"import functools\n\n\ndef _inner_{py}({src}):\n    return _RT.call({key!r}, {bound}, {ctx_expr})\n\n\n"
+                f"@functools.wraps(_inner_{py})\ndef {py}(*args, **kwargs):\n    return _inner_{py}(*args, **kwargs)\n")
     elif mspec['flavour'] == 'coro':
         body = f"async def {py}({src}):\n    return await _RT.acall({key!r}, {bound}, {ctx_expr})\n"
     else:
@@ -249,7 +253,14 @@ def build_view(mspec: Dict[str, Any], extra_members: bool = False) -> Any:
     me = mspec.get('self_name', 'self')      # the instance parameter need not be called 'self'
     src, names = sig_source(mspec['params'], leading_self=me)
     bound = '{' + ', '.join(f'{n!r}: {n}' for n in names) + '}'
-    if mspec['flavour'] == 'aview' and mspec.get('scratch'):
+    if mspec.get('static'):
+        # a public @staticmethod of the view: no instance parameter, no access to the constructor context
+        ssrc, _ = sig_source(mspec['params'])
+        if mspec['flavour'] == 'aview':
+            meth = f"    @staticmethod\n    async def {py}({ssrc}):\n        return await _RT.acall({key!r}, {bound}, NOCTX)\n"
+        else:
+            meth = f"    @staticmethod\n    def {py}({ssrc}):\n        return _RT.call({key!r}, {bound}, NOCTX)\n"
+    elif mspec['flavour'] == 'aview' and mspec.get('scratch'):
         # the view instance is used as per-request scratch space across a suspension (what per-request instances are for)
         meth = (f"    async def {py}({src}):\n        self._scratch = dict({bound})\n"
                 f"        r = await _RT.acall({key!r}, {bound}, self._ctx)\n"
